@@ -19,6 +19,13 @@ type Harness interface {
 	Teardown(deadlocked bool)
 }
 
+// Finisher is optionally implemented by a Harness: Finish runs as one more managed thread after all
+// initial threads have finished (e.g. DB.Close, which needs the background threads the scenario
+// spawned to keep being scheduled). Decisions taken during this phase are not branched on.
+type Finisher interface {
+	Finish()
+}
+
 // Exec is the result of one execution.
 type Exec struct {
 	Choices  []int
@@ -67,7 +74,11 @@ func (e *Explorer) RunOne(prefix []int, trace bool) (*Exec, Harness) {
 	active.Store(true)
 	h.Setup()
 	for i, f := range h.Threads() {
-		s.spawn(f, fmt.Sprintf("main%d", i))
+		t := s.spawn(f, fmt.Sprintf("main%d", i))
+		t.main = true
+	}
+	if fin, ok := h.(Finisher); ok {
+		s.finisher = fin.Finish
 	}
 	timeAdv := s.loop()
 	x := &Exec{Choices: s.Choices, Points: s.Points, Steps: s.Steps, Deadlock: s.Deadlock, Diverged: s.Diverged, Trace: s.Trace, TimeAdv: timeAdv}
@@ -93,13 +104,15 @@ func (s *Sched) loop() int {
 		s.mu.Lock()
 		var enabled []*Thread
 		var yielders []*Thread
-		unfinished := 0
+		unfinished := 0 // unfinished threads that must finish: initial threads and the finisher
 		runEnabled := false
 		for _, t := range s.threads {
 			if t.finished {
 				continue
 			}
-			unfinished++
+			if t.main {
+				unfinished++
+			}
 			if !t.parked {
 				t.unhooked = true // blocked in an un-hooked operation (real channel, timer, ...)
 				continue
@@ -117,7 +130,21 @@ func (s *Sched) loop() int {
 			}
 			enabled = append(enabled, t)
 		}
-		if unfinished == 0 {
+		if unfinished == 0 && s.finisher != nil && !s.finishing {
+			// all initial threads are done: start the finisher as one more managed thread
+			s.finishing = true
+			fin := s.finisher
+			s.mu.Unlock()
+			t := s.spawn(fin, "finish")
+			s.mu.Lock()
+			t.main = true
+			s.mu.Unlock()
+			continue
+		}
+		if unfinished == 0 && len(enabled) == 0 && len(yielders) == 0 && !runEnabled {
+			// Everything that has to finish has finished, and no spawned background thread can
+			// run: threads still parked here are daemons waiting for work (e.g. a WAL flush loop
+			// on its condition variable); they are abandoned, which is not a deadlock.
 			s.mu.Unlock()
 			return timeAdv
 		}
@@ -171,6 +198,9 @@ func (s *Sched) loop() int {
 			} else {
 				e.cache[key] = left
 			}
+		}
+		if s.finishing && s.prunedAt < 0 {
+			s.prunedAt = i // no branching inside the finish phase
 		}
 		pi.Pruned = s.prunedAt >= 0
 		s.Points = append(s.Points, pi)
